@@ -10,10 +10,15 @@ from harness import gen
 from harness.framework import Suite
 
 PID = "C19"
-LEAN_MODS = ["SwcVerif.Props.C19"]
+LEAN_MODS = ["SwcVerif.Props.C19", "SwcVerif.Props.C19Gen"]
+TRANSLATE_ALGO = ["AlgoPopulation"]    # Gen/AlgoPopulation.lean is regenerated from swcgeom/core/population.py on every run
+DRIVER_FILES = ["SwcVerif/Model/AlgoRun.lean"]
 THEOREMS = [
     "C19.getIdx_spec", "C19.step_len", "C19.load_at_most_once", "C19.loads_only_on_demand", "C19.log_monotone", "C19.get_returns",
     "C19.iter_returns", "C19.cumsum_spec", "C19.chain_len", "C19.chain_index", "C19.chain_index_neg", "C19.nest_index",
+    # refinement: the methods generated from population.py on this run compute what the models compute
+    "RefinePop.getIdx_refines", "RefinePop.nest_refines", "RefinePop.bsearch_refines", "RefinePop.load_refines", "RefinePop.getitem_refines",
+    "C19.generated_chain_init", "C19.generated_chain_len", "C19.generated_chain_getitem", "C19.genGets_refines", "C19.generated_load_at_most_once",
 ]
 TRUSTED = ["hand-written models Model/Population.lean of _get_idx / LazyLoadingTrees / ChainTrees / NestTrees / Population construction "
            "(tied by the c19.lazy and c19.chain correspondence: returned file and read log compared exactly for every operation script)"]
@@ -227,7 +232,9 @@ class LazySuite(Suite):
         line = f"lazy n={case['n']} pop={int(case['pop'])} ops={';'.join(toks) or 'n'}"
         if not toks:
             exp = [f"[{case['n']}]"]
-        return [(line, " ".join(exp) + " / " + ",".join(str(pos[m]) for m in res["log"] if m < OTHER))]
+        want = " ".join(exp) + " / " + ",".join(str(pos[m]) for m in res["log"] if m < OTHER)
+        # the hand-written state machine AND the methods generated from population.py on this run (translator cross-check)
+        return [(line, want), ("g" + line, want)]
 
     def oracle(self, case, res):
         if "exc" in res:
@@ -424,7 +431,8 @@ class ChainSuite(Suite):
             for j, m in enumerate(mem):
                 where[m] = f"{mi}:{j}"
         exp = f"{res['len']} " + " ".join("E" if g == "E" else where[g] for g in res["gets"])
-        return [(f"chain lens={gen.ints(case['lens'])} keys={gen.ints(case['keys'])}", exp)]
+        a = f"lens={gen.ints(case['lens'])} keys={gen.ints(case['keys'])}"
+        return [("chain " + a, exp), ("gchain " + a, exp)]
 
     def oracle(self, case, res):
         if "exc" in res:
@@ -581,7 +589,9 @@ class MapSuite(Suite):
 
 
 SUITES = [LazySuite(), ChainSuite(), MapSuite()]
-TECHNIQUE = ("Lean 4 theorems: the lazy cache as a state machine (every operation history reads each file at most once and only files that were requested or the "
+TECHNIQUE = ("Lean 4 theorems; _get_idx, LazyLoadingTrees.load/__getitem__/__len__, ChainTrees.__init__/__len__/__getitem__ and NestTrees.__getitem__ are TRANSLATED from "
+             "population.py on every run (harness/translate_algo.py → Gen/AlgoPopulation.lean, file reads as a state-passing callback) and proved to compute what the models compute "
+             "(RefinePop.*, C19.generated_chain_getitem, C19.generated_load_at_most_once: every history of index requests); the models: the lazy cache as a state machine (every operation history reads each file at most once and only files that were requested or the "
              "construction probe of file 0; index arithmetic incl. negative indices), the binary search of ChainTrees (invariant: returns the member and offset of "
              "the k-th element of the concatenation, empty members allowed; total length) + differential correspondence on operation scripts over real "
              "directories with reads observed (also directories of hundreds of files revisited after a full pass, several populations alive and used alternately, "
@@ -589,4 +599,4 @@ TECHNIQUE = ("Lean 4 theorems: the lazy cache as a state machine (every operatio
 LEVEL_TEXT = ("Kernel-checked for every history of get / load / iterate / len operations: a file is read only when its slot is empty, so at most once, and only "
               "when requested (plus slot 0 at Population construction); get(k) returns file k (k+n for negative k) and raises outside [-n, n). Kernel-checked for "
               "every list of member lengths (zeros allowed): chained length = sum, and chain[k] is element k of the concatenation.")
-LEVEL_NOTE = "Trusted: Lean kernel; models tied by correspondence; os.walk order, slice.indices, the process pool and Tree.from_swc itself are outside the model."
+LEVEL_NOTE = "Trusted: Lean kernel; the imperative translator and its semantics library Model/Py.lean (cross-checked by running the generated methods on the same scripts); the remaining glue (Population construction, slices, Populations matching, map) tied by correspondence; os.walk order, slice.indices, the process pool and Tree.from_swc itself are outside the model."
